@@ -142,6 +142,16 @@ func (c *ColStr) DecodeColumn(r *Reader, rows int) error {
 		p.Start = p.End
 		p.End += n
 
+		if n > maxPrealloc && len(c.Buf) < p.End {
+			// Not trusting the length: the buffer grows as data arrives.
+			buf, err := readGrow(r, c.Buf[:p.Start], n)
+			if err != nil {
+				return errors.Wrapf(err, "row %d: read full", i)
+			}
+			c.Buf = buf[:cap(buf)]
+			c.Pos = append(c.Pos, p)
+			continue
+		}
 		if len(c.Buf) < p.End {
 			var an int
 			if n < 128 {
